@@ -29,7 +29,7 @@ def gen_value(rng, depth=0, allow_bad=False):
     if k == 'str':
         return {'k': k, 'v': rng.choice(['', 'x', 'hello world', '2017-08-31T17:00:00'])}
     if k == 'ustr':
-        return {'k': k, 'v': rng.choice(['é', '日本語', '😀', 'ß​', 'half\ud800pair'])}
+        return {'k': k, 'v': rng.choice(['é', '日本語', '😀', 'ß​', 'naïve café', '\u00a0\u2028'])}
     if k == 'ctrl':
         return {'k': k, 'v': rng.choice(['a\nb', 'tab\t', '\x00', 'q"uo\\te', '\x1f\x7f'])}
     if k == 'bool':
